@@ -35,8 +35,8 @@ class C17(BaseCheck):
   REQUIRED_CLASSES = ('WhenAll', 'WhenAny', 'Unwrap', 'ContinueWith', 'Map')
   ASSUMPTIONS = ('n = 0 inputs is not judged (the statement is vacuous there)',
                  'WhenAny with several inputs already successful at call time may yield any of them')
-  QUICK_WALL = 40
-  THOROUGH_WALL = 600
+  QUICK_WALL = 180
+  THOROUGH_WALL = 1800
   EXHAUSTIVE = {'quick': True, 'thorough': True}
 
   def _plan(self, tier):
